@@ -275,12 +275,65 @@ def qp_line(inst, x, cost, xs, lam, unsat):
         ",".join(fr(v) for v in x), fr(cost), ",".join(fr(v) for v in xs), ",".join(fr(v) for v in lam), ",".join(map(str, unsat)))
 
 
+def classify_hang(inst):
+    """a float solve() that does not end: is it one of the two known floating-point livelocks (known-findings.json F5 / F6: identified by call
+    site and signature, like F1), or something new?  Returns "F6", "F5" or None."""
+    import math
+    try:
+        vpsc, vs, cs = build(inst, False)
+    except Timeout:
+        return None
+    solver = vpsc.Solver(vs, cs)
+    signal.signal(signal.SIGALRM, _alarm)
+    signal.alarm(3)
+    try:
+        try:
+            solve_all(solver, inst, False)
+            return None                 # it ends now: not reproducible, report it
+        finally:
+            signal.alarm(0)
+    except Timeout:
+        pass
+    except Exception:
+        return None
+    # F6: inside satisfy()'s split-and-merge loop, chasing rounding noise — every constraint holds up to 8 ulps, Solver.inactive keeps growing
+    noise_only = all(c.unsatisfiable or c.gap - (c.right.scale * c.right.position() - c.left.scale * c.left.position())
+                     <= 8 * math.ulp(max(abs(c.right.scale * c.right.position()), abs(c.left.scale * c.left.position()), 1.0)) for c in cs)
+    if noise_only and len(solver.inactive) > 10 * len(cs) and max(abs(v.position()) for v in vs) >= 1e5:
+        return "F6"
+    # F5: the outer loop of solve(): the costs of successive satisfy() passes form a 2-cycle of rounding noise more than 1e-4 apart
+    if not noise_only:
+        return None
+    costs = []
+    signal.alarm(3)
+    try:
+        try:
+            for _ in range(24):
+                solver.satisfy()
+                costs.append(solver.cost())
+        finally:
+            signal.alarm(0)
+    except Timeout:
+        return None
+    tail = costs[-20:]
+    if all(tail[i] == tail[i + 2] for i in range(len(tail) - 2)) and abs(tail[0] - tail[1]) > 1e-4 and \
+            abs(tail[0] - tail[1]) <= 1e-6 * max(abs(tail[0]), abs(tail[1])):
+        return "F5"
+    return None
+
+
 def one_case(inst, rep):
     """returns (line, meta) or None when the case ended in an exception recorded as a failing input"""
     meta = {"kind": inst["kind"], "inst": inst}
     try:
         x, cost, unsat = run_float(inst)
     except Timeout:
+        which = classify_hang(inst)
+        kn = {k["id"]: k for k in load_known()["known"] if k["property"] == "C05"}
+        if which in kn:
+            rep.known_seen[which] = kn[which]["message"]
+            rep.count("%s-livelock-in-random-instance" % which)
+            return None
         rep.prop_fail.append(("solve() did not terminate within 5 s", {"case": meta})); return None
     except RecursionError:
         rep.count("recursion-error"); return None
@@ -487,6 +540,10 @@ def run(pid, tier, seed, replay=None):
         inst = m["inst"]; inst["cs"] = [tuple(c) for c in inst["cs"]]
         r = one_case(inst, rep)
         if not r:
+            if rep.known_seen and not rep.prop_fail:
+                for k, v in sorted(rep.known_seen.items()):
+                    print("KNOWN-FINDING: property=%s %s" % (pid, v))
+                return 0
             print("VIOLATION property=%s replay=%s" % (pid, replay)); return 1
         ans = drive([r[0]])[0]
         print("replay:", ans, {k: v for k, v in r[1].items() if k not in ("inst", "vpsc_line")})
